@@ -167,7 +167,8 @@ def proof_obligations(prop, thorough):
         if rc != 0:
             res['problems'].append('leanchecker: ' + out[-400:])
     res['checker_cmd'] = 'cd lean && lake build DW dwdriver %s && lake env lean ../work/Audit_%s.lean' % (module, prop) + \
-        (' && lake env leanchecker %s' % module if thorough else '')
+        (' && lake env leanchecker %s' % module if thorough else '') + \
+        (' && lake env lean ../work/Tables_%s.lean' % prop if spec.get('tables') else '')
     return res
 
 
